@@ -173,10 +173,19 @@ def run_case(case, rec):
                 ext, inds = jnp.asarray(d[1]), d[2].index.to_numpy()
                 cols = [[float(np.asarray(st[s])[syn_rank[i] if s in edge_states else i]) for s, i in recs]]
                 for k in range(N):
-                    st = step_fn(st, params_all, {"i": ext[:, k]}, {"i": inds}, dt)
+                    e, ei = {"i": ext[:, k]}, {"i": inds}
+                    st_in = dict(st)
+                    st = step_fn(st, params_all, e, ei, dt)
+                    # the caller's containers are inputs: a step must not consume or replace their entries
+                    if set(e) != {"i"} or set(ei) != {"i"} or not np.array_equal(np.asarray(e["i"]), np.asarray(ext[:, k])):
+                        mutated.append(("externals", k, sorted(e), sorted(ei)))
+                    if set(st_in) != set(st):
+                        mutated.append(("state keys", k, sorted(set(st_in) ^ set(st))))
                     cols.append([float(np.asarray(st[s])[syn_rank[i] if s in edge_states else i]) for s, i in recs])
                 return np.asarray(cols).T
+            mutated = []
             M = rec.call("manual_step", go, where="init_fn/step_fn loop")
+            rec.check("manual_step", not mutated, what="step_fn changed the dictionaries handed in by the caller", first=str(mutated[:2]), **tag)
             dev = np.abs(M - A) / scale
             j = np.unravel_index(np.argmax(dev), dev.shape)
             rec.check("manual_step", np.max(dev) <= TOL, state=recs[j[0]][0], index=recs[j[0]][1], col=int(j[1]), got=float(M[j]), want=float(A[j]), **tag)
